@@ -644,6 +644,12 @@ impl<'a, T: Send> Future for RecvBatchFuture<'a, T> {
           guard
             .waiting_async_receivers
             .retain(|w| w.state != state_ptr);
+          drop(guard);
+          if this.state.load(Ordering::SeqCst) == STATE_SUCCESS_SPACE {
+            // a sender picked the queued record for a later item while this poll completed on
+            // its own: that wake belongs to another waiting receiver
+            this.receiver.shared.forward_receiver_wake();
+          }
         }
         Poll::Ready(res.map(|_| out))
       }
@@ -757,6 +763,12 @@ impl<'a, T: Send> Future for RecvBatchMutFuture<'a, T> {
           guard
             .waiting_async_receivers
             .retain(|w| w.state != state_ptr);
+          drop(guard);
+          if this.state.load(Ordering::SeqCst) == STATE_SUCCESS_SPACE {
+            // a sender picked the queued record for a later item while this poll completed on
+            // its own: that wake belongs to another waiting receiver
+            this.receiver.shared.forward_receiver_wake();
+          }
         }
         Poll::Ready(res)
       }
@@ -862,6 +874,12 @@ impl<'a, T: Send> Future for RecvFuture<'a, T> {
           guard
             .waiting_async_receivers
             .retain(|w| w.state != state_ptr);
+          drop(guard);
+          if this.state.load(Ordering::SeqCst) == STATE_SUCCESS_SPACE {
+            // a sender picked the queued record for a later item while this poll completed on
+            // its own: that wake belongs to another waiting receiver
+            this.receiver.shared.forward_receiver_wake();
+          }
         }
         Poll::Ready(res)
       }
@@ -919,6 +937,12 @@ impl<T: Send> Stream for AsyncReceiver<T> {
       guard
         .waiting_async_receivers
         .retain(|w| w.state != state_ptr);
+      drop(guard);
+      if this.state.load(Ordering::SeqCst) == STATE_SUCCESS_SPACE {
+        // a sender picked the queued record for a later item while this poll completed on its
+        // own: that wake belongs to another waiting receiver
+        this.shared.forward_receiver_wake();
+      }
     }
     match polled {
       Poll::Ready(Ok(value)) => {
